@@ -46,6 +46,9 @@ DEFAULTS = {
     "refine_stop_test": "Eq",                # if get_number_of_partitions(m_refined) == get_number_of_partitions(m)
     "canon_empty_test": ["Eq", 0],           # if m.number_of_nodes() == 0
     "canon_relabel_copy": True,              # nx.relabel_nodes(..., copy=True)
+    # tucan/graph_utils.py
+    "invariant_code_plain": True,            # InvariantCodeDefinition(KEY[, default]) only; value = attrs.get(key, default) / attrs[key]
+    "attribute_sequence_own_first": True,    # return tuple([attr_atom] + attr_neighbors)
 }
 
 
@@ -373,6 +376,43 @@ def extract():
         kw = {k.arg: k.value for k in r.value.keywords}
         return bool(ast.literal_eval(kw["copy"])) if "copy" in kw else True
     _item(p, "canon_relabel_copy", relabel_copy)
+    # ------------------------------------------------------------------ graph_utils.py
+    try:
+        gtree = ast.parse(_src("tucan/graph_utils.py"))
+    except Exception as e:
+        gtree = ast.parse("")
+        fallbacks.append("graph_utils.py: %r" % (e,))
+
+    def inv_plain():
+        fn = _func(gtree, "graph_from_molecule")
+        calls = [n for n in ast.walk(fn) if _is_call(n, "InvariantCodeDefinition")]
+        assert len(calls) >= 1
+        plain = all(len(c.args) in (1, 2) and not c.keywords for c in calls)
+        # the class itself: two fields; the value taken is attrs[key] or attrs.get(key, default)
+        cls = [n for n in ast.walk(gtree) if isinstance(n, ast.ClassDef) and n.name == "InvariantCodeDefinition"]
+        assert len(cls) == 1
+        fields = [n.target.id for n in cls[0].body if isinstance(n, ast.AnnAssign)]
+        add = _func(gtree, "_add_invariant_code")
+        gets = [n for n in ast.walk(add) if _is_call(n, "get")]
+        conds = [n for n in ast.walk(add) if isinstance(n, ast.IfExp)]
+        assert len(gets) == 1 and len(conds) >= 1
+        return plain and fields == ["key", "default_value"] and len(conds) == 1
+    _item(p, "invariant_code_plain", inv_plain)
+
+    def own_first():
+        fn = _func(gtree, "attribute_sequence")
+        r = fn.body[-1]
+        assert isinstance(r, ast.Return)
+        v = r.value
+        if isinstance(v, ast.Tuple):                         # (attr_atom, *attr_neighbors)
+            e = v.elts
+            assert len(e) == 2
+            return isinstance(e[0], ast.Name) and e[0].id == "attr_atom" and isinstance(e[1], ast.Starred)
+        assert _is_call(v, "tuple") and isinstance(v.args[0], ast.BinOp) and isinstance(v.args[0].op, ast.Add)   # tuple([attr_atom] + attr_neighbors)
+        l, rr = v.args[0].left, v.args[0].right
+        assert isinstance(l, (ast.List, ast.Name)) and isinstance(rr, (ast.List, ast.Name))
+        return isinstance(l, ast.List) and len(l.elts) == 1 and getattr(l.elts[0], "id", "") == "attr_atom" and getattr(rr, "id", "") == "attr_neighbors"
+    _item(p, "attribute_sequence_own_first", own_first)
     return p
 
 
